@@ -104,17 +104,31 @@ func (r *vsRun) fatalf(f string, a ...any) {
 func vsGenTraffic(rt *rapid.T) *veTraffic {
 	tr := &veTraffic{Base: time.Date(2024, 1, 2, 13, 0, 0, 0, time.UTC)}
 	nf := rapid.IntRange(3, 8).Draw(rt, "flows")
+	// now and then the number of streams sits on or next to a multiple of 64 (the word size of the bitmaps
+	// the service keeps per tag): many single-datagram flows
+	many := rapid.IntRange(0, 15).Draw(rt, "manyflows") == 0
+	if many {
+		nf = rapid.SampledFrom([]int{63, 64, 64, 65, 127, 128, 128}).Draw(rt, "flows64")
+	}
 	for i := 0; i < nf; i++ {
 		tr.Flows = append(tr.Flows, veFlow{
 			Client: rapid.SampledFrom([]string{"10.0.0.1", "10.0.0.3"}).Draw(rt, "client"), Server: "10.0.0.2",
 			CPort: uint16(1000 + i), SPort: uint16(rapid.SampledFrom([]int{80, 443}).Draw(rt, "sport")),
 		})
 	}
-	np := rapid.IntRange(nf, 26).Draw(rt, "packets")
+	np := rapid.IntRange(nf, max(26, nf+6)).Draw(rt, "packets")
+	if many {
+		np = nf + rapid.IntRange(0, 6).Draw(rt, "extrapackets")
+	}
 	off := time.Duration(0)
 	seen := map[int]bool{}
 	for i := 0; i < np; i++ {
-		off += time.Duration(rapid.SampledFrom([]int{1, 20, 60, 1000, 4000, 9000}).Draw(rt, "gapms")) * time.Millisecond
+		if many {
+			// keep the whole scenario far below the 5 minute idle timeout of the importer
+			off += time.Duration(rapid.SampledFrom([]int{1, 20, 60, 1000}).Draw(rt, "gapms")) * time.Millisecond
+		} else {
+			off += time.Duration(rapid.SampledFrom([]int{1, 20, 60, 1000, 4000, 9000}).Draw(rt, "gapms")) * time.Millisecond
+		}
 		fl := rapid.IntRange(0, nf-1).Draw(rt, "flow")
 		if i < nf {
 			fl = i // every flow appears
